@@ -173,6 +173,8 @@ def run(ctx, env):
     ctx.rule("R2.9", "a V5 / V7 packet is its header followed by count(<record>, header.count): it consumes exactly the 24 + 48|52 x count bytes its header implies, all or nothing (shared with C03 R3.3)")
     from . import consume
     consume.rule(ctx, prog, an, "R2.8", lambda b: True, floor=30)
+    ctx.rule("R2.10", "every element a hand-written parser adds to the collection it reports is decoded from the input slice it was given: nothing kept in the parser from an earlier buffer (and no invented element) surfaces in a later packet, whose headers would not account for it")
+    consume.foreign_rule(ctx, prog, an, "R2.10", lambda b: True)
     from . import c03
     lay = layout.Layouts(prog, an)
     for ver in sorted(c03.STRUCTS):
